@@ -47,7 +47,7 @@ func (rl *Shell) standardCommands() commands {
 		"next-screen-line":     rl.downLine,
 		"clear-screen":         rl.clearScreen,
 		"clear-display":        rl.clearDisplay,
-		"redraw-current-line":  rl.Display.Refresh,
+		"redraw-current-line":  func() { rl.Display.Refresh() },
 
 		// Changing text
 		"end-of-file":                  rl.endOfFile,
